@@ -60,7 +60,8 @@ META = {
 }
 
 LAYOUTS = ["33", "34", "44"]
-SHAPES = [(), (1,), (2,), (3,), (5,), (2, 3), (3, 2), (2, 2), (1, 3), (2, 3, 4), (0,), (2, 0)]
+SHAPES = [(), (1,), (2,), (3,), (5,), (2, 3), (3, 2), (2, 2), (1, 3), (2, 3, 4), (0,), (2, 0),
+          (4,), (3, 3), (4, 4), (3, 4), (4, 3), (7,), (1, 1), (3, 1), (13,)]   # incl. sizes equal to the matrix / quaternion dimensions
 TOLS = [(1e-5, 1e-5), (1e-5, 1e-5), (1e-3, 1e-3), (0.0, 1e-4), (1e-2, 1e-5)]
 K_ROT = 16.0
 MSG = (("not all orthogonal", "notOrthogonal"), ("determinant are not all equal", "detNotOne"), ("not full rank", "notFullRank"))
@@ -184,6 +185,25 @@ def slice_layout(M, lay):
     return M
 
 
+DEFAULTS = {"check": True, "rtol": 1e-5, "atol": 1e-5}
+APIS = ["from_matrix", "direct", "from_matrix_pos", "direct_pos", "from_matrix_pos1", "partial_fm", "partial_direct"]
+
+
+def choose_call(rng, check, rtol, atol, allow_defaults=True):
+    """how the optional arguments (check, rtol, atol) travel: all by keyword, all positional, first positional + keywords
+    in another order, or only a SUBSET given (the others then take their defaults — returned values are the effective ones)"""
+    api = rng.choice(APIS)
+    given = ["check", "rtol", "atol"]
+    if api in ("partial_fm", "partial_direct"):
+        given = rng.choice([[], ["check"], ["rtol"], ["atol"], ["check", "rtol"], ["check", "atol"], ["rtol", "atol"]])
+        vals = {"check": check, "rtol": rtol, "atol": atol}
+        for k_ in DEFAULTS:
+            if k_ not in given:
+                vals[k_] = DEFAULTS[k_]
+        check, rtol, atol = vals["check"], vals["rtol"], vals["atol"]
+    return api, given, check, rtol, atol
+
+
 def call_conv(case, M):
     """call the implementation as the case says; returns the LieTensor (or raises)"""
     p = P()
@@ -196,6 +216,14 @@ def call_conv(case, M):
         return p.from_matrix(arg, U.ltype(name), **kw)
     if api == "from_matrix_pos":
         return p.from_matrix(arg, U.ltype(name), case["check"], case["rtol"], case["atol"])
+    if api == "direct_pos":
+        return fn_of(name)(arg, case["check"], case["rtol"], case["atol"])
+    if api == "from_matrix_pos1":   # first optional positional, the others by keyword in the other order
+        return p.from_matrix(arg, U.ltype(name), case["check"], atol=case["atol"], rtol=case["rtol"])
+    if api in ("partial_fm", "partial_direct"):   # only a subset of the keywords is given; the case holds the effective values
+        kw2 = {k_: case[k_] for k_ in case.get("given", [])}
+        assert all(case[k_] == DEFAULTS[k_] for k_ in DEFAULTS if k_ not in kw2), "harness: non-given argument must be the default"
+        return p.from_matrix(arg, ltype=U.ltype(name), **kw2) if api == "partial_fm" else fn_of(name)(mat=arg, **kw2)
     if api == "defaults":  # only generated when check/rtol/atol are the defaults
         return p.from_matrix(arg, U.ltype(name)) if case.get("ci", 0) % 2 else fn_of(name)(arg)
     return fn_of(name)(arg, **kw)
@@ -243,6 +271,7 @@ def gen_roundtrip(rng, ci):
     if dtype == "float64" and rng.random() < 0.15:
         rtol, atol = 1e-9, 1e-9
     check = rng.random() < 0.8
+    api, given, check, rtol, atol = choose_call(rng, check, rtol, atol)
     lay = rng.choice(LAYOUTS)
     # source element: own type, or a richer one whose extra blocks must be ignored
     src = name
@@ -259,13 +288,12 @@ def gen_roundtrip(rng, ci):
         rows.append(rows_of(src, t, q, s))
         tags.append(tag)
     rows64 = U.to_dtype_exact(rows, dtype)[1].tolist() if n else []
-    api = rng.choice(["from_matrix", "direct", "direct", "from_matrix_pos"])
-    if (rtol, atol) == (1e-5, 1e-5) and check and rng.random() < 0.3:
+    if (rtol, atol) == (1e-5, 1e-5) and check and rng.random() < 0.2:
         api = "defaults"
     if dtype == "float32" and rng.random() < 0.1 and n > 0:
         api = "list"
     return {"stream": "roundtrip", "type": name, "src": src, "dtype": dtype, "lay": lay, "shape": list(shape),
-            "check": check, "rtol": rtol, "atol": atol, "api": api, "rows": rows64, "tags": tags, "ci": ci}
+            "check": check, "rtol": rtol, "atol": atol, "api": api, "given": given, "rows": rows64, "tags": tags, "ci": ci}
 
 
 def prep_roundtrip(ctx: Ctx, case):
@@ -459,14 +487,17 @@ def gen_reject(rng, ci):
     name = rng.choice(U.GROUPS)
     dtype = rng.choice(["float64", "float64", "float32"])
     eps = common.EPS[dtype]
-    rtol, atol = rng.choice(TOLS)
+    rtol, atol = rng.choice(TOLS + [(1e-6, 1e-3), (1e-3, 1e-6)])
     check = rng.random() < 0.85
+    api, given, check, rtol, atol = choose_call(rng, check, rtol, atol)
     lay = rng.choice(LAYOUTS)
-    n = rng.choice([1, 1, 2, 3, 5])
+    n = rng.choice([1, 1, 2, 3, 3, 4, 5, 7])
     src = "Sim3" if name in ("Sim3", "RxSO3") else "SE3"
-    kind = rng.choice(PERT)
+    kind = rng.choice(PERT + (["tinyscale", "tinyscale"] if src == "Sim3" else []))
     tol = atol + rtol * rng.choice([0.0, 1.0])
     mag = tol * rng.choice(FACT) * rng.choice([1.0, 1.0, 0.5])
+    if kind == "tinyscale":     # spacing of the scale relative to the rank-test threshold atol, both sides
+        tol, mag = atol, atol * rng.choice([0.3, 0.7, 0.95, 1.05, 1.5, 3.0])
     bad_items = sorted(set(rng.randrange(n) for _ in range(rng.choice([1, 1, 2])))) if kind != "none" else []
     if rng.random() < 0.15:
         bad_items = list(range(n))
@@ -475,13 +506,15 @@ def gen_reject(rng, ci):
         t, q, s, tag = gen_elem(rng, eps, atol)
         if name in ("SO3", "SE3"):
             s = 1.0
+        if kind == "tinyscale" and i in bad_items:
+            s = mag
         X = P().LieTensor(torch.tensor(rows_of(src, t, q, s), dtype=torch.float64), ltype=U.ltype(src))
         M = X.matrix().clone()
-        if i in bad_items:
+        if i in bad_items and kind != "tinyscale":
             M[:3, :3] = perturb(rng, M[:3, :3], kind, mag)
         mats.append(slice_layout(M, lay).to(U.dt(dtype)).double().tolist())
     return {"stream": "reject", "type": name, "dtype": dtype, "lay": lay, "check": check, "rtol": rtol, "atol": atol,
-            "api": ("defaults" if ((rtol, atol) == (1e-5, 1e-5) and check and rng.random() < 0.7) else rng.choice(["from_matrix", "direct"])),
+            "api": ("defaults" if ((rtol, atol) == (1e-5, 1e-5) and check and rng.random() < 0.4) else api), "given": given,
             "kind": kind, "factor": mag / tol if tol else 0.0, "bad_items": bad_items,
             "mats": mats, "ci": ci}
 
@@ -567,7 +600,13 @@ def prep_reject(ctx: Ctx, case):
     elif pv == "ok" and exc is not None:
         ctx.fail(case, f"rejects: a matrix within the tolerances raised {got} {desc}")
     # ---- a batch must raise iff one of its items raises when converted alone (check=True)
-    if n > 1 and case["check"] and pv in ("ok", "raise"):
+    tiny_item = False
+    if name in ("Sim3", "RxSO3") and case["atol"] > 0:
+        for R in M64[:, :3, :3]:
+            d_ = float(torch.det(R))
+            if d_ >= 0 and d_ ** (1 / 3) <= case["atol"] * (1 + 2 * band_of(case) + 1e-9):
+                tiny_item = True      # alone it is "rank deficient" by the code's test, in a batch of larger scales it is not
+    if n > 1 and case["check"] and pv in ("ok", "raise") and not tiny_item:
         single_raises = []
         for i in range(n):
             try:
@@ -625,12 +664,13 @@ def run_reject(ctx: Ctx, n):
 
 # ----------------------------------------------------------------------------- euler stream
 
-def gen_euler_angles(rng, eps):
+def gen_euler_angles(rng, eps, eeps=2e-4):
+    edge = math.acos(1 - eeps)          # distance from gimbal lock at which the band of THIS call's eps begins
     def ang(kind):
         c = rng.random()
         if kind == "pitch":
             if c < 0.45:
-                d = rng.choice([0.0, 1e-12, 1e-9, 1e-6, 1e-4, 1.9e-2, 2.0e-2, 2.1e-2, 0.05, 0.3])
+                d = rng.choice([0.0, 1e-12, 1e-9, 1e-6, 1e-4, 0.5 * edge, 0.9 * edge, 0.999 * edge, 1.001 * edge, 1.1 * edge, 2 * edge, 0.05, 0.3])
                 return rng.choice([-1, 1]) * (math.pi / 2 - d)
             if c < 0.6:
                 return rng.choice([0.0, 1e-30, eps, 1e-9, 1e-3]) * rng.choice([-1, 1])
@@ -647,21 +687,21 @@ def gen_euler_angles(rng, eps):
 def gen_euler(rng, ci):
     dtype = rng.choice(["float64", "float64", "float32"])
     eps = common.EPS[dtype]
-    shape = rng.choice([(), (1,), (2,), (3,), (2, 3), (0,)])
+    shape = rng.choice([(), (1,), (2,), (3,), (2, 3), (0,), (4,), (3, 3), (4, 4), (3, 4), (4, 3), (7,)])
     n = int(math.prod(shape))
     mode = rng.choice(["e2q", "e2q", "q2e", "q2e", "q2e", "big"])
     eeps = rng.choice([2e-4, 2e-4, 2e-4, 1e-2, 1e-6])
     data, tags = [], []
     for _ in range(n):
         if mode == "e2q":
-            data.append(gen_euler_angles(rng, eps))
+            data.append(gen_euler_angles(rng, eps, eeps))
         elif mode == "big":  # euler2SO3 accepts any real angles
             hi = rng.choice([10.0, 10.0, 1e3, 1e5 if dtype == "float64" else 1e3])
             data.append([rng.uniform(-hi, hi) for _ in range(3)])
         else:
             c = rng.random()
             if c < 0.5:   # quaternion built from angles near the gimbal-lock boundary / principal range ends
-                r, p, y = gen_euler_angles(rng, eps)
+                r, p, y = gen_euler_angles(rng, eps, eeps)
                 cr, sr, cp, sp, cy, sy = math.cos(r / 2), math.sin(r / 2), math.cos(p / 2), math.sin(p / 2), math.cos(y / 2), math.sin(y / 2)
                 q = [sr * cp * cy - cr * sp * sy, cr * sp * cy + sr * cp * sy, cr * cp * sy - sr * sp * cy, cr * cp * cy + sr * sp * sy]
                 if rng.random() < 0.4:
@@ -749,7 +789,14 @@ def prep_euler(ctx: Ctx, case):
     X = p.SO3(Qt)
     mon = common.PurityMonitor()
     try:
-        A = mon.call("euler", lambda x: x.euler(eps=case["eeps"]) if case["eeps"] != 2e-4 or case["ci"] % 2 else p.euler(x), X)
+        form = case.get("form", ["method_kw", "method_pos", "fn_kw", "fn_pos", "default"][case["ci"] % 5])
+        if form == "default" and case["eeps"] != 2e-4:
+            form = "fn_pos"
+        call = {"method_kw": lambda x: x.euler(eps=case["eeps"]), "method_pos": lambda x: x.euler(case["eeps"]),
+                "fn_kw": lambda x: p.euler(x, eps=case["eeps"]), "fn_pos": lambda x: p.euler(x, case["eeps"]),
+                "default": lambda x: p.euler(x) if case["ci"] % 2 else x.euler()}[form]
+        ctx.count(f"euler.form.{form}")
+        A = mon.call("euler", call, X)
     except Exception as e:
         ctx.fail(case, f"raises: euler() on shape {shape} {dtype} raised {type(e).__name__}: {str(e)[:100]}")
         return [], None
